@@ -81,6 +81,10 @@ CHECKS = {
    category="fault_enumeration", design_ref="3/C20", technique="property-based testing (hypothesis): end-to-end protocol runs against scripted peers (valid / wrong type / violating / truncated) with generated fragmentation and arrival schedules under a harness-owned virtual clock; history invariant on the interaction tree",
    text="Whole Fandango.fuzz(mode=IO) runs on generated protocol specs; the harness plays all external parties from a generated script and delivery schedule and owns the clock of packetparser/algorithm. The resulting interaction must be a prefix of the protocol language (complete when fault-free), fuzzer messages must match the recorded send() calls one-to-one in order, remote messages must be a prefix of what each peer delivered, sent messages satisfy their constraints, and injected faults never end up accepted.",
    note="Arrival orders are logical (virtual clock), no OS threads; loops are bounded to 2 iterations to keep runs short (unbounded forms are covered by C19)."),
+ "C14": dict(
+   category="translation_validation", design_ref="3/C14", technique="differential testing of the two spec readers over the repository's .fan files, hypothesis-generated specs with generated python blocks, and generated perturbations; parse-tree and extracted-code equality",
+   text="Each text is read with Fandango.parser='cpp' (compiled from the working tree's C++ sources) and ='python'; both must reject, or both accept with identical parse trees (context classes, token types, text of real tokens) and identical extracted python code. Everything downstream is computed from that tree by the same Python code.",
+   note="The C++ reader is built by tools/build_cpp.sh from the working tree (content-hashed under /verif/.build); synthetic INDENT/DEDENT/NEWLINE/EOF token text is ignored; error messages are not compared."),
 }
 NA = {}
 checks = []
